@@ -694,6 +694,16 @@ impl Interp {
                     (Slot::Bv(b, h), ok)
                 }
             }
+            "bvzpos" => {
+                // length, then the positions of the ZERO bits (every other bit is one)
+                let len: usize = args[0].parse().unwrap();
+                let zs: Vec<usize> = args[1..].iter().map(|x| x.parse().unwrap()).collect();
+                let bits: Vec<bool> = bits_from(len, &zs).iter().map(|b| !*b).collect();
+                let before = live_bytes();
+                let b: BitVector = bits.iter().copied().collect();
+                let h = live_bytes() - before;
+                (Slot::Bv(b, h), ok)
+            }
             "bvpos" => {
                 let ps: Vec<usize> = args.iter().map(|x| x.parse().unwrap()).collect();
                 let before = live_bytes();
